@@ -540,6 +540,9 @@ def register_pretty(type=None, predicate=None):
                 # class, we can call register_pretty(cls)(fn)
                 _DEFERRED_DISPATCH_BY_NAME[type] = fn
             else:
+                # A direct registration supersedes a pending
+                # by-name registration for the same class.
+                _DEFERRED_DISPATCH_BY_NAME.pop(get_deferred_key(type), None)
                 pretty_dispatch.register(type, partial(_run_pretty, fn))
         else:
             assert callable(predicate)
@@ -560,11 +563,10 @@ def is_registered(
             'register_deferred may not be True when check_deferred is False'
         )
 
-    if type in pretty_dispatch.registry:
-        return True
-
     if check_deferred:
-        # Check deferred printers for the type exactly.
+        # Check deferred printers for the type exactly. This comes
+        # before the registry lookup: a by-name registration made
+        # after the class already had a printer replaces that printer.
         deferred_key = get_deferred_key(type)
         if deferred_key in _DEFERRED_DISPATCH_BY_NAME:
             if register_deferred:
@@ -573,6 +575,9 @@ def is_registered(
                 )
                 register_pretty(type)(deferred_dispatch)
             return True
+
+    if type in pretty_dispatch.registry:
+        return True
 
     if not check_superclasses:
         return False
